@@ -288,6 +288,8 @@ MK_REPS = ["U.S.", "U. S.", "S.Ct.", "F.3d", "F.2d", "A.2d", "Mass.", "L.Ed.2d"]
 
 def _it(rng, s):
     t = rng.choice(["i", "em"])
+    if rng.random() < 0.15:
+        s = rng.choice([" ", "\n "]) + s
     return f"<{t}>{s}</{t}>"
 
 
